@@ -537,9 +537,9 @@ def field_closures(ctx, rid):
     i_tp = q.param_index(fn, lambda t: t.endswith("type_params::TypeParameters"))
     TP = "P%d" % i_tp
     PATH = "TypeGenerator::resolve_field_type_path(P0,C1_0.ty.id,TypeParameters::params(%s),C1_0.type_name)?" % TP
-    FIR = "CompositeFieldIR::new(%s,TypePath::is_compact(%s),Option::unwrap_or_default(Option::map(C1_0.type_name,|1|{str::contains(C2_0,'Box<')})))" % (PATH, PATH)
+    FIR = "CompositeFieldIR::new(%s,TypePath::is_compact(%s),(let v1::Some($)=C1_0.type_name&&str::contains(C1_0.type_name@v1::Some.0,'Box<')))" % (PATH, PATH)
     MARK = "for(BTreeSet::iter(TypePath::parent_type_params(%s))){TypeParameters::mark_used(%s,elem(BTreeSet::iter(TypePath::parent_type_params(%s))))}" % (PATH, TP, PATH)
-    exp_named = "{%s;Ok((syn::parse_str(Option::unwrap(C1_0.name))?,%s))}" % (MARK, FIR)
+    exp_named = "{%s;Ok((syn::parse_str(C1_0.name@v1::Some.0)?,%s))}" % (MARK, FIR)
     exp_unnamed = "{%s;Ok(%s)}" % (MARK, FIR)
     seen = set()
     for c in cls:
@@ -889,7 +889,7 @@ def param_match_predicate(ctx, rid):
     it, pred, hit, _rest = t[2]
     EL = "elem(P%d)" % i_par
     expect_term(ctx, rid, "param-match/predicate", fn["sp"], "%s|%s" % (show(it), show(pred)),
-                "P%d|((%s.concrete_type_id==P%d)&&Option::is_none_or(P%d,|1|{(%s.original_name==C1_0)}))" % (i_par, EL, i_id, i_name, EL),
+                "P%d|((%s.concrete_type_id==P%d)&&(Not(let v1::Some($)=P%d)||(%s.original_name==P%d@v1::Some.0)))" % (i_par, EL, i_id, i_name, EL, i_name),
                 "first parent parameter (declaration order) with the same concrete id and, when a recorded name is given, the same original name")
     expect_term(ctx, rid, "param-match/result", fn["sp"], hit, "Ok(TypePath::from_parameter(%s))" % EL, "the reference is rendered as that parameter")
 
